@@ -203,17 +203,30 @@ Proof.
   intros d [v|] Hd; cbn; auto. destruct (v =? 0) eqn:E; lia.
 Qed.
 
+(* the shape of an accepting run of the constructors, whatever the treatment of the id *)
+Lemma validate_with_some : forall acc chk c cfg, validate_with acc chk c = Some cfg ->
+  ci_req_missing c = false /\ acc (ci_id c) = Some (cc_id cfg) /\
+  cc_interval cfg = with_default default_interval (ci_interval c) /\
+  cc_confs cfg = (if uses_confs (ci_kind c) then with_default default_confs (ci_confs c) else 0) /\
+  cc_start cfg = written (ci_start c) /\
+  (uses_confs (ci_kind c) = true -> 1 <= cc_confs cfg) /\
+  (chk = true -> 1 <= cc_interval cfg).
+Proof.
+  intros acc chk c cfg. unfold validate_with.
+  destruct (ci_req_missing c); [discriminate|].
+  destruct (acc (ci_id c)) as [id|]; [|discriminate].
+  destruct (uses_confs (ci_kind c)) eqn:Eu; cbn [andb].
+  - destruct (with_default default_confs (ci_confs c) <? 1) eqn:E1; [discriminate|].
+    destruct (chk && (with_default default_interval (ci_interval c) <? 1)) eqn:E2; [discriminate|].
+    intros [= <-]. cbn. repeat split; try reflexivity; intros; subst; cbn in *; lia.
+  - destruct (chk && (with_default default_interval (ci_interval c) <? 1)) eqn:E2; [discriminate|].
+    intros [= <-]. cbn. repeat split; try reflexivity; try discriminate. intros; subst; cbn in *; lia.
+Qed.
+
 Lemma validate_positive : forall c cfg, validate c = Some cfg ->
   1 <= cc_interval cfg /\ (uses_confs (ci_kind c) = true -> 1 <= cc_confs cfg).
 Proof.
-  intros c cfg. unfold validate.
-  destruct (ci_req_missing c); [discriminate|].
-  destruct (uses_confs (ci_kind c)) eqn:Eu; cbn [andb].
-  - destruct (with_default default_confs (ci_confs c) <? 1) eqn:E1; [discriminate|].
-    destruct (with_default default_interval (ci_interval c) <? 1) eqn:E2; [discriminate|].
-    intros [= <-]. cbn. split; [lia|]. intros _. lia.
-  - destruct (with_default default_interval (ci_interval c) <? 1) eqn:E2; [discriminate|].
-    intros [= <-]. cbn. split; [lia|discriminate].
+  intros c cfg H. apply validate_with_some in H as (_ & _ & _ & _ & _ & Hc & Hi). auto.
 Qed.
 
 Lemma validate_values : forall c cfg, validate c = Some cfg ->
@@ -221,25 +234,85 @@ Lemma validate_values : forall c cfg, validate c = Some cfg ->
   cc_interval cfg = with_default default_interval (ci_interval c) /\
   (uses_confs (ci_kind c) = true -> cc_confs cfg = with_default default_confs (ci_confs c)).
 Proof.
-  intros c cfg. unfold validate.
-  destruct (ci_req_missing c); [discriminate|].
-  destruct (uses_confs (ci_kind c) && _); [discriminate|].
-  destruct (_ <? 1); [discriminate|].
-  intros [= <-]. cbn. repeat split. intros ->. reflexivity.
+  intros c cfg H. apply validate_with_some in H as (_ & _ & Hi & Hc & Hs & _ & _).
+  repeat split; auto. intro Eu. now rewrite Eu in Hc.
 Qed.
 
 (* written non-zero values come back unchanged *)
 Lemma with_default_written : forall d v, v <> 0 -> with_default d (Some v) = v.
 Proof. intros d v Hv. cbn. destruct (v =? 0) eqn:E; [lia|reflexivity]. Qed.
 
+(* chain ids *)
+Lemma accept_id_iff : forall v i,
+  accept_id v = Some i <-> exists z, v = JNum z /\ 0 <= z <= 255 /\ i = z.
+Proof.
+  intros v i. destruct v as [z|s|b|n d]; cbn.
+  - destruct ((0 <=? z) && (z <=? 255)) eqn:E; split.
+    + intros [= <-]. exists z. repeat split; lia.
+    + intros [w [[= <-] [_ ->]]]. reflexivity.
+    + discriminate.
+    + intros [w [[= <-] [Hw _]]]. lia.
+  - split; [discriminate|]. intros [w [Hw _]]. discriminate.
+  - split; [discriminate|]. intros [w [Hw _]]. discriminate.
+  - split; [discriminate|]. intros [w [Hw _]]. discriminate.
+Qed.
+
+Lemma accept_id_none_iff : forall v,
+  accept_id v = None <-> ~ (exists z, v = JNum z /\ 0 <= z <= 255).
+Proof.
+  intro v. split.
+  - intros H [z [-> Hz]]. cbn in H. replace ((0 <=? z) && (z <=? 255)) with true in H by lia. discriminate.
+  - intro H. destruct (accept_id v) as [i|] eqn:E; [|reflexivity].
+    exfalso. apply H. apply accept_id_iff in E as [z [-> [Hz _]]]. now exists z.
+Qed.
+
+Lemma accept_id_representable : forall v,
+  id_representable v = match accept_id v with Some _ => true | None => false end.
+Proof. intros [z|s|b|n d]; cbn; try reflexivity. now destruct ((0 <=? z) && (z <=? 255)). Qed.
+
+Lemma chain_id_value : forall c cfg, validate c = Some cfg ->
+  ci_id c = JNum (cc_id cfg) /\ 0 <= cc_id cfg <= 255.
+Proof.
+  intros c cfg H. apply validate_with_some in H as (_ & Hid & _).
+  apply accept_id_iff in Hid as [z [Hv [Hz ->]]]. auto.
+Qed.
+
+(* the code before the repair, for every written id *)
+Lemma old_accept_id_value : forall z, 0 <= z -> old_accept_id (JNum z) = Some (z mod 256).
+Proof. intros z Hz. cbn. replace (z <? 0) with false by lia. reflexivity. Qed.
+
+Lemma old_accept_id_frac : forall n d, 0 <= n -> old_accept_id (JFrac n d) = Some ((n / Zpos d) mod 256).
+Proof. intros n d Hn. cbn. replace (n <? 0) with false by lia. reflexivity. Qed.
+
+Lemma old_chain_id_refuted :
+  exists c cfg, ci_id c = JNum 257 /\ old_id_validate c = Some cfg /\ cc_id cfg = 1 /\
+                chain_ok c (old_id_model_chain c) = false.
+Proof.
+  exists (mkChainIn Evm false (JNum 257) None None None), (mkChainCfg 1 5 10 0).
+  vm_compute. repeat split; reflexivity.
+Qed.
+
+Lemma old_chain_id_fraction_refuted :
+  exists c cfg, ci_id c = JFrac 3 2 /\ old_id_validate c = Some cfg /\ cc_id cfg = 1 /\
+                chain_ok c (old_id_model_chain c) = false.
+Proof.
+  exists (mkChainIn Sub false (JFrac 3 2) None None None), (mkChainCfg 1 5 0 0).
+  vm_compute. repeat split; reflexivity.
+Qed.
+
 Lemma validate_none_iff : forall c,
   validate c = None <->
   (ci_req_missing c = true \/
+   ~ (exists z, ci_id c = JNum z /\ 0 <= z <= 255) \/
    (exists v, ci_interval c = Some v /\ v < 0) \/
    (uses_confs (ci_kind c) = true /\ exists v, ci_confs c = Some v /\ v < 0)).
 Proof.
-  intro c. unfold validate.
+  intro c. unfold validate, validate_with.
   destruct (ci_req_missing c); [split; auto|].
+  destruct (accept_id (ci_id c)) as [id|] eqn:Eid.
+  2:{ split; auto. intros _. right. left. now apply accept_id_none_iff. }
+  assert (Hid : ~ ~ (exists z, ci_id c = JNum z /\ 0 <= z <= 255)).
+  { intro H. apply accept_id_none_iff in H. congruence. }
   assert (Hi : (with_default default_interval (ci_interval c) <? 1) = true <->
                exists v, ci_interval c = Some v /\ v < 0).
   { destruct (ci_interval c) as [v|]; cbn.
@@ -256,15 +329,15 @@ Proof.
     - split; [discriminate|]. intros [w [Hw _]]. discriminate. }
   destruct (uses_confs (ci_kind c)); cbn [andb].
   - destruct (with_default default_confs (ci_confs c) <? 1) eqn:E1.
-    + split; auto. intros _. right. right. split; auto. now apply Hc.
+    + split; auto. intros _. right. right. right. split; auto. now apply Hc.
     + destruct (with_default default_interval (ci_interval c) <? 1) eqn:E2.
-      * split; auto. intros _. right. left. now apply Hi.
-      * split; [discriminate|]. intros [H|[H|[_ H]]]; [discriminate| |].
+      * split; auto. intros _. right. right. left. now apply Hi.
+      * split; [discriminate|]. intros [H|[H|[H|[_ H]]]]; [discriminate|contradiction| |].
         -- apply Hi in H. discriminate.
         -- apply Hc in H. discriminate.
   - destruct (with_default default_interval (ci_interval c) <? 1) eqn:E2.
-    + split; auto. intros _. right. left. now apply Hi.
-    + split; [discriminate|]. intros [H|[H|[H _]]]; try discriminate.
+    + split; auto. intros _. right. right. left. now apply Hi.
+    + split; [discriminate|]. intros [H|[H|[H|[H _]]]]; try discriminate; try contradiction.
       apply Hi in H. discriminate.
 Qed.
 
@@ -300,10 +373,10 @@ Qed.
 
 Lemma chain_cfg_eqb_eq : forall a b, chain_cfg_eqb a b = true <-> a = b.
 Proof.
-  intros [i1 c1 s1] [i2 c2 s2]. unfold chain_cfg_eqb. cbn [cc_interval cc_confs cc_start]. split.
-  - intro H. apply andb_prop in H as [H Hs]. apply andb_prop in H as [Hi Hc].
-    apply Z.eqb_eq in Hi, Hc, Hs. now subst.
-  - intros [= -> -> ->]. now rewrite !Z.eqb_refl.
+  intros [d1 i1 c1 s1] [d2 i2 c2 s2]. unfold chain_cfg_eqb. cbn [cc_id cc_interval cc_confs cc_start]. split.
+  - intro H. apply andb_prop in H as [H Hs]. apply andb_prop in H as [H Hc]. apply andb_prop in H as [Hd Hi].
+    apply Z.eqb_eq in Hd, Hi, Hc, Hs. now subst.
+  - intros [= -> -> -> ->]. now rewrite !Z.eqb_refl.
 Qed.
 
 Lemma use_ok_model : forall c n, use_ok (model_chain c) (model_after (model_chain c) n) = true.
@@ -331,7 +404,7 @@ Lemma old_validate_refuted :
   exists c cfg, old_validate c = Some cfg /\ cc_interval cfg < 1 /\
                 chain_ok c (old_model_chain c) = false.
 Proof.
-  exists (mkChainIn Evm false (Some (-5)) None None), (mkChainCfg (-5) 10 0).
+  exists (mkChainIn Evm false (JNum 1) (Some (-5)) None None), (mkChainCfg 1 (-5) 10 0).
   vm_compute. repeat split; reflexivity.
 Qed.
 
@@ -350,6 +423,9 @@ Proof.
     destruct (validate_values _ _ E) as [Hs [Hvi Hvc]].
     destruct (calc_start_total (cc_start cfg) (cc_interval cfg) Hi) as [z [Hz _]].
     unfold chain_ok. rewrite Hz.
+    assert (F0 : id_ok (ci_id c) (cc_id cfg) = true).
+    { destruct (chain_id_value _ _ E) as [-> Hr]. cbn. rewrite Z.eqb_refl. lia. }
+    rewrite F0. cbn [andb].
     assert (F1 : field_ok (ci_interval c) (cc_interval cfg) = true).
     { rewrite Hvi. apply field_ok_default; [unfold default_interval; lia|]. now rewrite <- Hvi. }
     rewrite F1.
@@ -360,8 +436,10 @@ Proof.
       rewrite F2. lia.
     + lia.
   - apply validate_none_iff in E. unfold chain_ok.
-    destruct E as [E|[[v [E Hv]]|[Eu [v [E Hv]]]]].
+    destruct E as [E|[E|[[v [E Hv]]|[Eu [v [E Hv]]]]]].
     + now rewrite E.
+    + apply accept_id_none_iff in E. rewrite accept_id_representable, E.
+      now rewrite andb_false_r.
     + rewrite E. cbn [positive_or_absent].
       replace (1 <=? v) with false by lia. now rewrite andb_false_r.
     + rewrite Eu, E. cbn [positive_or_absent].
@@ -380,7 +458,16 @@ Proof.
   - intro H. split; [discriminate|]. intros _. lia.
 Qed.
 
+Lemma id_ok_sound : forall v got, id_ok v got = true ->
+  (forall z, v = JNum z -> got = z /\ 0 <= z <= 255) /\ (forall n d, v <> JFrac n d).
+Proof.
+  intros [z|s|b|n d] got; cbn; intro H; split; try discriminate.
+  intros w [= <-]. lia.
+Qed.
+
 Lemma chain_ok_sound : forall c cfg r, chain_ok c (Some (cfg, r)) = true ->
+  (forall z, ci_id c = JNum z -> cc_id cfg = z /\ 0 <= z <= 255) /\
+  (forall n d, ci_id c <> JFrac n d) /\
   1 <= cc_interval cfg /\
   (uses_confs (ci_kind c) = true -> 1 <= cc_confs cfg) /\
   (forall v, ci_interval c = Some v -> v <> 0 -> cc_interval cfg = v) /\
@@ -390,8 +477,10 @@ Lemma chain_ok_sound : forall c cfg r, chain_ok c (Some (cfg, r)) = true ->
 Proof.
   intros c cfg r. unfold chain_ok. intro H.
   apply andb_prop in H as [H Hr]. apply andb_prop in H as [H Hs].
-  apply andb_prop in H as [H Hc]. apply andb_prop in H as [Hi Hfi].
+  apply andb_prop in H as [H Hc]. apply andb_prop in H as [H Hfi]. apply andb_prop in H as [Hid Hi].
   destruct (field_ok_sound _ _ Hfi) as [Hfi1 _].
+  destruct (id_ok_sound _ _ Hid) as [Hid1 Hid2].
+  split; [exact Hid1|]. split; [exact Hid2|].
   repeat split.
   - lia.
   - intro Eu. rewrite Eu in Hc. lia.
@@ -404,19 +493,24 @@ Qed.
 
 Lemma chain_ok_rejects : forall c, chain_ok c None = true ->
   ci_req_missing c = true \/
+  ~ (exists z, ci_id c = JNum z /\ 0 <= z <= 255) \/
   (exists v, ci_interval c = Some v /\ v < 1) \/
   (uses_confs (ci_kind c) = true /\ exists v, ci_confs c = Some v /\ v < 1).
 Proof.
   intros c. unfold chain_ok.
   destruct (ci_req_missing c); [auto|]. cbn [negb andb].
+  rewrite accept_id_representable.
+  destruct (accept_id (ci_id c)) as [id|] eqn:Eid;
+    [|intros _; right; left; now apply accept_id_none_iff].
+  cbn [andb].
   destruct (ci_interval c) as [v|]; cbn [positive_or_absent].
-  - destruct (1 <=? v) eqn:E; [|intros _; right; left; exists v; split; auto; lia].
+  - destruct (1 <=? v) eqn:E; [|intros _; right; right; left; exists v; split; auto; lia].
     cbn [andb]. destruct (uses_confs (ci_kind c)); [|discriminate].
     destruct (ci_confs c) as [w|]; cbn [positive_or_absent]; [|discriminate].
-    intro H. right. right. split; auto. exists w. split; auto. lia.
+    intro H. right. right. right. split; auto. exists w. split; auto. lia.
   - cbn [andb]. destruct (uses_confs (ci_kind c)); [|discriminate].
     destruct (ci_confs c) as [w|]; cbn [positive_or_absent]; [|discriminate].
-    intro H. right. right. split; auto. exists w. split; auto. lia.
+    intro H. right. right. right. split; auto. exists w. split; auto. lia.
 Qed.
 
 (* ---------------------------------------------------------------------------------------------- *)
